@@ -207,8 +207,10 @@ func Run(o *drv.Out) {
 	}
 	o.Extra["seconds_block_shapes"] = int(time.Since(t0).Seconds())
 	runMultisig(o, fo)
+	runMultisigPadding(o, fo)
 	runRLP(o, fo)
 	runRLPTyped(o, fo)
+	runRLPBlob(o, fo)
 	runCrossChain(o, fo)
 	runWindow(o, fo)
 	runCodec(o)
